@@ -21,6 +21,7 @@ import (
 	"runtime"
 	"runtime/debug"
 	"sort"
+	"strconv"
 	"strings"
 	"sync"
 	"time"
@@ -302,14 +303,30 @@ func TrimStack(st string) string {
 // child side
 
 type childMsg struct {
-	Kind   string           `json:"kind"` // "delta" | "done"
-	From   int              `json:"from,omitempty"`
-	Upto   int              `json:"upto,omitempty"` // cases [From,Upto) completed in this delta
-	Sigs   []string         `json:"sigs,omitempty"`
-	Counts map[string]int64 `json:"counts,omitempty"`
-	Viol   []Violation      `json:"viol,omitempty"`
+	Kind   string            `json:"kind"` // "delta" | "done"
+	From   int               `json:"from,omitempty"`
+	Upto   int               `json:"upto,omitempty"` // cases [From,Upto) completed in this delta
+	Sigs   []string          `json:"sigs,omitempty"`
+	Counts map[string]int64  `json:"counts,omitempty"`
+	Viol   []Violation       `json:"viol,omitempty"`
 	Sample []json.RawMessage `json:"samples,omitempty"`
-	Incon  []string         `json:"incon,omitempty"`
+	Incon  []string          `json:"incon,omitempty"`
+}
+
+// Scale is the factor applied to wall-clock watchdogs (never to verdicts):
+// thorough cases are larger and thorough runs share the machine with whatever
+// else is going on, and a watchdog that fires is an inconclusive run.
+// VERIF_TIMEOUT_SCALE overrides it.
+func Scale(tier string) float64 {
+	if v := os.Getenv("VERIF_TIMEOUT_SCALE"); v != "" {
+		if f, err := strconv.ParseFloat(v, 64); err == nil && f > 0 {
+			return f
+		}
+	}
+	if tier == "thorough" {
+		return 6
+	}
+	return 1
 }
 
 // runOne executes one case with panic capture and a watchdog.
@@ -319,6 +336,7 @@ func runOne(p *Prop, c *Case, run func(*Case)) (incon string) {
 	if to == 0 {
 		to = 60 * time.Second
 	}
+	to = time.Duration(float64(to) * Scale(c.Tier))
 	go func() {
 		defer close(done)
 		c.Guard("case", func() { run(c) })
@@ -372,6 +390,7 @@ func marshalExtra(c *Case) json.RawMessage {
 
 // childMain runs cases [from,to) (or the named witness) and streams results.
 func childMain(p *Prop, tier string, seed int64, from, to int, witness, outPath string, repeats int) int {
+	stall.MaxScale = Scale(tier)
 	out, err := os.OpenFile(outPath, os.O_CREATE|os.O_WRONLY|os.O_APPEND, 0o644)
 	if err != nil {
 		fmt.Fprintln(os.Stderr, "child: cannot open out:", err)
